@@ -436,6 +436,58 @@ def judgeLocal (A B : Placed) (margin : Rat) (dim3 : Bool) (o : List String) : S
 def unitish3 (n : V3 Float) : Bool := let s := (q3 n).normSq; absQ (s - 1) ≤ 1 / 1000000000000
 def unitish2 (n : V2 Float) : Bool := let s := (q2 n).normSq; absQ (s - 1) ≤ 1 / 1000000000000
 
+/-! ### the SAT-based cuboid/cuboid kernels `closest_points_cuboid_cuboid` / `distance_cuboid_cuboid` (oracle only) -/
+
+/-- which feature pair realises the exact distance of two disjoint boxes (exact brute force over features):
+`face-vertex | face-edge | face-face` when a face normal of one box realises the distance (1, 2, ≥ 3 vertices of the other
+box on the extreme plane), `edge-edge` when the interiors of two crossed edges are strictly closer than every pair involving
+a vertex, `vertex` otherwise (vertex–edge, vertex–vertex, parallel edges). Relative guards (1e-4 / 1e-3 on squared lengths)
+and the absolute oracle tolerance `tol` (touching boxes: the distance is at rounding level) keep near-ties out of `edge-edge`. -/
+def cuboidPoseClass (A B : Core) (tol : Rat) : String :=
+  let mn (l : List Rat) : Rat := match l with | [] => 0 | x :: xs => xs.foldl minQ x
+  let m12 := minQ (mn (A.verts.map B.distSq)) (mn (B.verts.map A.distSq))
+  let m3 := mn (A.edges.flatMap fun (a, b) => B.edges.map fun (c, d) => segSegDistSq a b c d)
+  let m := minQ m12 m3
+  if m = 0 then "overlap" else
+  let faceHit (P R : Core) : Nat :=
+    P.normals.foldl (fun acc n =>
+      match P.verts.map n.dot, R.verts.map n.dot with
+      | a :: as, b :: bs =>
+        let maxP := as.foldl maxQ a; let minP := as.foldl minQ a
+        let maxR := bs.foldl maxQ b; let minR := bs.foldl minQ b
+        let sep := maxQ (minR - maxP) (minP - maxR)
+        if sep + tol > 0 && (sep + tol) * (sep + tol) ≥ m * (1 - 1 / 10000) then
+          let ext := if minR - maxP ≥ minP - maxR then minR else maxR
+          Nat.max acc ((b :: bs).filter fun x => absQ (x - ext) ≤ tol).length
+        else acc
+      | _, _ => acc) 0
+  let k := Nat.max (faceHit A B) (faceHit B A)
+  if k ≥ 3 then "face-face" else if k = 2 then "face-edge" else if k = 1 then "face-vertex"
+  else if m3 * 1000 < m12 * 999 && sqrtQ m12 > sqrtQ m3 + 2 * tol then "edge-edge" else "vertex"
+
+def oracleCuboidCuboid (isDist : Bool) (a o : List String) : String :=
+  match run (do let m ← (if isDist then pure 0 else pf); let h1 ← pv3; let h2 ← pv3; let p ← piso3; pure (m, h1, h2, p)) a with
+  | none => "skip bad-args"
+  | some (m, h1, h2, p) =>
+    let pose := Aff.ofIso3 (qiso3 p)
+    let A : Placed := ⟨.cuboid (q3 h1), Aff.identity⟩
+    let B : Placed := ⟨.cuboid (q3 h2), pose⟩
+    let cls := cuboidPoseClass (cuboidCore (q3 h1) Aff.identity) (cuboidCore (q3 h2) pose) (tolFor A B)
+    let verdict :=
+      if isDist then
+        match o with
+        | "panic" :: _ => "fail route=cuboidxcuboid panic"
+        | _ => match run pfo o with
+          | none => "fail unparsable-output"
+          | some x => if !okF x then "fail route=cuboidxcuboid non-finite-distance" else judgeDist A B (q x) [] []
+      else
+        match run (praw true) o with
+        | none => "fail unparsable-output"
+        | some r => match r.toRes id B.pose.act with
+          | none => "fail route=cuboidxcuboid non-finite-witness"
+          | some res => judgeCP A B (q m) res [] []
+    s!"{verdict} [closest-feature={cls}]"
+
 /-- SAT lower-bound oracle: the reported separation never exceeds the true distance, and its axis is a unit vector -/
 def judgeSat (A B : Placed) (planar : Bool) (sep : Float) (axisNormSq : Rat) : String :=
   if !okF sep then "fail non-finite-separation" else
@@ -685,6 +737,8 @@ def handler (fn : String) : Option Handler :=
   | "cp3" => some { model := fun _ => some "oracle-only", oracle := oracleCPWorld true }
   | "cp2" => some { model := fun _ => some "oracle-only", oracle := oracleCPWorld false }
   | "cpl3" => some { model := fun _ => some "oracle-only", oracle := oracleCPLocal true }
+  | "cpcc3" => some { model := fun _ => some "oracle-only", oracle := oracleCuboidCuboid false }
+  | "dcc3" => some { model := fun _ => some "oracle-only", oracle := oracleCuboidCuboid true }
   | "cpl2" => some { model := fun _ => some "oracle-only", oracle := oracleCPLocal false }
   | "dist3" => some { model := fun _ => some "oracle-only", oracle := oracleDistWorld true }
   | "dist2" => some { model := fun _ => some "oracle-only", oracle := oracleDistWorld false }
